@@ -368,6 +368,7 @@ Verdict judgeIndep(const Case& c) {
   // excluded by construction, counted
   bool zeroAreaPoly = false;
   for (auto& it : items) if (it.et == EndType::Polygon) for (auto& p : it.paths) if (O::area2(p) == 0) zeroAreaPoly = true;
+  if (c.I("emptyat", -1) >= 0 && !oneGroup) zeroAreaPoly = true;   // the inserted all-empty Polygon group has no orientation either
   if (zeroAreaPoly && sign < 0) { v.known = "KF-C12-c"; ST.count("excluded_zero_area_path_in_negative_polygon_call"); return v; }
   bool anyPolygon = false, anyOther = false;
   for (auto& it : items) (it.et == EndType::Polygon ? anyPolygon : anyOther) = true;
@@ -375,12 +376,23 @@ Verdict judgeIndep(const Case& c) {
   // (always positive) combined with negatively oriented polygons are outside the documented use
   if (anyPolygon && anyOther && sign < 0) { v.discard = true; return v; }
 
+  int emptyAt = (int)c.I("emptyat", -1);
+  if (emptyAt >= 0) ST.count("with_all_empty_group");
   auto run = [&](const std::vector<int>& order, bool together) {
     Paths64 result;
     auto exec = [&](const std::vector<int>& idxs) {
       ClipperOffset co(ml, at, false, rev);
       if (oneGroup) { Paths64 all; for (int i : idxs) all.insert(all.end(), items[i].paths.begin(), items[i].paths.end()); co.AddPaths(all, items[0].jt, items[0].et); }
-      else for (int i : idxs) co.AddPaths(items[i].paths, items[i].jt, items[i].et);
+      else {
+        // optionally a group holding only an empty path is added before position emptyAt (it has nothing to offset
+        // and must not influence the other groups)
+        int pos = 0;
+        for (int i : idxs) {
+          if ((int)idxs.size() > 1 && pos == emptyAt) co.AddPaths(Paths64{Path64()}, JoinType::Miter, EndType::Polygon);
+          co.AddPaths(items[i].paths, items[i].jt, items[i].et);
+          ++pos;
+        }
+      }
       Paths64 s;
       co.Execute(delta, s);
       result.insert(result.end(), s.begin(), s.end());
@@ -431,6 +443,7 @@ Case genIndep() {
   c.d["at"] = G::coin() ? 0.0 : G::real(0.05, 2.0);
   c.i["rev"] = G::range(0, 1);
   c.i["onegroup"] = G::range(0, 1);
+  c.i["emptyat"] = G::chance(25) ? G::range(0, n - 1) : -1;
   bool ccw = G::coin();
   for (int k = 0; k < n; ++k) {
     int64_t cx = k * 2000, cy = G::sym(50);
